@@ -379,7 +379,10 @@ def directed():
 def _table(path, pat):
     try:
         m = re.search(pat, open(path).read(), re.S)
-        return [int(x) for x in re.findall(r"\d+", m.group(1))] if m else None
+        if not m:
+            return None
+        body = re.sub(r"//[^\n]*", "", m.group(1))
+        return [int(x.replace("_", ""), 0) for x in re.findall(r"0[xX][0-9a-fA-F_]+|0[bB][01_]+|0[oO][0-7_]+|\d[\d_]*", body)]
     except OSError:
         return None
 
